@@ -109,7 +109,7 @@ func x_{{$m.Name}}_{{$k}}{{$m.TypeConstraint}}({{.ArgList}}) ({{.ReturnArgList}}
 
 
 def gen_cases(ctx):
-    base = c01.gen_cases(ctx)
+    base = [c for c in c01.gen_cases(ctx) if c["kind"] != "replace-type"]
     cases = []
     for c in base:
         c = dict(c)
